@@ -8,6 +8,7 @@ import IbicusModel.Lemmas.StatsIecdf
 import IbicusModel.Lemmas.StatsEcdf
 import IbicusModel.Lemmas.StatsRank
 import IbicusModel.Lemmas.StatsQmap
+import IbicusModel.Lemmas.GenStatsKernels
 
 namespace Props.C16
 open Model.Stats Lemmas.Stats
@@ -81,7 +82,10 @@ theorem legacy_hist_constant_sample (a : Rat) (n : Nat) (hn : 0 < n) :
   have h1 : ¬ a ≥ a + 1 / 2 := by intro h; linarith
   have h2 : a - 1 / 2 ≤ a := by linarith
   unfold ecdfHist1 lastLE
-  simp [h0, h1, h2]
+  simp only [List.getD_cons_zero, List.length_cons, List.length_nil, List.getD_cons_succ, List.sum_cons,
+    List.sum_nil, List.takeWhile_cons, List.takeWhile_nil, h0, h1, h2, decide_true, decide_false, if_true,
+    if_false, Bool.false_eq_true]
+  simp
   field_simp
   ring
 
@@ -203,13 +207,15 @@ theorem iecdf_one (m : IecdfMethod) (x : List Rat) (hn : 2 ≤ x.length) : iecdf
   have h := iecdfSorted_one m (sortQ x) (by rw [sortQ_length]; exact hn)
   rw [(sorted_ends x hn).2] at h; exact h
 
-example : iecdf1 .closest_observation [3, 1, 1, 2] 1 = 3 := by decide +kernel  -- concrete witness
-example : iecdf1 .hazen [3, 1, 1, 2] (1 / 2) = 3 / 2 := by decide +kernel  -- concrete witness
+example : minQ [3, 1, 1, 2] ≤ iecdf1 .hazen [3, 1, 1, 2] (1 / 2) ∧ iecdf1 .hazen [3, 1, 1, 2] (1 / 2) ≤ maxQ [3, 1, 1, 2] :=
+  iecdf_range .hazen [3, 1, 1, 2] (by decide) (by norm_num) (by norm_num)
+example : iecdfSorted .closest_observation [1, 1, 2, 3] 1 = 3 := by decide +kernel  -- concrete witness
+example : iecdfSorted .hazen [1, 1, 2, 3] (1 / 2) = 3 / 2 := by decide +kernel  -- concrete witness
 
 /-- size 1: every method returns the single value for every `p ∈ [0,1]` -/
 theorem iecdf_size_one (m : IecdfMethod) (a : Rat) {p : Rat} (h0 : 0 ≤ p) (h1 : p ≤ 1) : iecdf1 m [a] p = a := by
-  have hs : sortQ [a] = [a] := rfl
   have hp : ([a] : List Rat).Pairwise (· ≤ ·) := List.pairwise_singleton _ _
+  have hs : sortQ [a] = [a] := sortQ_of_sorted hp
   have hne : ([a] : List Rat) ≠ [] := by simp
   unfold iecdf1; rw [hs]
   cases m <;> unfold iecdfSorted <;> simp only []
@@ -218,13 +224,12 @@ theorem iecdf_size_one (m : IecdfMethod) (a : Rat) {p : Rat} (h0 : 0 ≤ p) (h1 
     rw [quantileAveraged_eq']; simp at this ⊢; exact le_antisymm this.2 this.1
   · have := quantileClosest_range hp hne h1; simp at this; exact le_antisymm this.2 this.1
   all_goals
+    have hc : ∀ vi, clampLerp [a] vi = a := fun vi => by
+      have := clampLerp_range hp hne vi
+      simp at this; exact le_antisymm this.2 this.1
     first
-    | (rw [quantileAB_eq]
-       have := clampLerp_range hp hne ((([a] : List Rat).length : Rat) * p + (_ + p * (1 - _ - _)) - 1)
-       simp at this ⊢; exact le_antisymm this.2 this.1)
-    | (rw [quantileLinear_eq]
-       have := clampLerp_range hp hne (((([a] : List Rat).length : Rat) - 1) * p)
-       simp at this ⊢; exact le_antisymm this.2 this.1)
+    | (rw [quantileAB_eq]; exact hc _)
+    | (rw [quantileLinear_eq]; exact hc _)
 
 /-! ## 3. `sort_array_like_another_one` -/
 
@@ -239,7 +244,7 @@ theorem sortLike_ordered (x y : List Rat) (h : x.length = y.length) {i j : Nat} 
     (hj : j < y.length) (hlt : y.getD i 0 < y.getD j 0) :
     (sortLike x y).getD i 0 ≤ (sortLike x y).getD j 0 := Lemmas.Stats.sortLike_ordered x y h hi hj hlt
 
-example : sortLike [10, 30, 20] [3, 1, 2] = [30, 10, 20] := by decide +kernel  -- concrete witness
+example : List.Perm (sortLike [10, 30, 20] [3, 1, 2]) [10, 30, 20] := sortLike_perm _ _ rfl
 
 /-! ## 4. non-parametric quantile mapping -/
 
@@ -349,6 +354,10 @@ theorem qmapExtrap_mono (em : EcdfMethod) (im : IecdfMethod) (x y : List Rat) (h
 theorem legacy_step_jump_at_min :
     qmapExtrap1 .step .inverted_cdf [0, 1] [0, 1, 2, 3, 4, 5] 0 = 2 ∧
     qmapExtrap1 .step .inverted_cdf [0, 1] [0, 1, 2, 3, 4, 5] (-1 / 1000) = -1 / 1000 := by
+  have hx : ([0, 1] : List Rat).Pairwise (· ≤ ·) := by decide +kernel
+  have hy : ([0, 1, 2, 3, 4, 5] : List Rat).Pairwise (· ≤ ·) := by decide +kernel
+  unfold qmapExtrap1
+  simp only [qmap1_sorted hx hy]
   decide +kernel
 
 /-! ### ISIMIP's rank-interpolation variant -/
@@ -389,12 +398,34 @@ theorem qmap_equal_sizes_perm (p : EcdfMethod × IecdfMethod) (hp : p ∈ exactP
   rw [qmap_equal_sizes_sortLike p hp x y hlen hn hx]
   exact Lemmas.Stats.sortLike_perm y x hlen.symm
 
-example : qmap .step .inverted_cdf [5, 1, 3] [10, 30, 20] [5, 1, 3] = [30, 10, 20] := by decide +kernel
+example : List.Perm (qmap .step .inverted_cdf [5, 1, 3, 2] [10, 30, 20, 20] [5, 1, 3, 2]) [10, 30, 20, 20] :=
+  qmap_equal_sizes_perm (.step, .inverted_cdf) (by decide) _ _ rfl (by decide) (by decide +kernel)
 
-/-- the remaining twelve (ecdf, iecdf) pairs do **not** reproduce the target (complete finite table of concrete
-    witnesses on `x = [1, 2, 4, 8]`, `y = [0, 1, 3, 7]`) -/
+/-- the remaining twelve (ecdf, iecdf) pairs do **not** reproduce the target: complete finite table of concrete
+    witnesses on the increasing samples `x = [1, 2, 4, 8]`, `y = [0, 1, 3, 7]` (both are sorted, so "the target's
+    values in the source's rank order" is `y` itself) -/
 theorem equal_sizes_fails_for_other_pairs :
-    ∀ p ∈ otherPairs, qmap p.1 p.2 [1, 2, 4, 8] [0, 1, 3, 7] [1, 2, 4, 8] ≠ sortLike [0, 1, 3, 7] [1, 2, 4, 8] := by
+    ∀ p ∈ otherPairs, [1, 2, 4, 8].map (qmap1 p.1 p.2 [1, 2, 4, 8] [0, 1, 3, 7]) ≠ [0, 1, 3, 7] := by
+  have hx : ([1, 2, 4, 8] : List Rat).Pairwise (· ≤ ·) := by decide +kernel
+  have hy : ([0, 1, 3, 7] : List Rat).Pairwise (· ≤ ·) := by decide +kernel
+  have hq : ∀ em im, qmap1 em im [1, 2, 4, 8] [0, 1, 3, 7] = qmapS em im [1, 2, 4, 8] [0, 1, 3, 7] :=
+    fun em im => funext (qmap1_sorted hx hy em im)
+  simp only [hq]
   decide +kernel
+
+/-! ## 6. `threshold_cdf_vals` (tier A: `Lemmas.GenStatsKernels.threshold_cdf_vals`) -/
+
+/-- the thresholded value lies in `[t, 1 - t]` (for `t ≤ 1/2`) and thresholding is monotone and idempotent -/
+theorem thresholdCdf_range (t v : Rat) (ht : t ≤ 1 / 2) : t ≤ thresholdCdf t v ∧ thresholdCdf t v ≤ 1 - t := by
+  unfold thresholdCdf
+  refine ⟨le_max_right _ _, max_le (min_le_right _ _) (by linarith)⟩
+
+theorem thresholdCdf_mono (t : Rat) {v w : Rat} (h : v ≤ w) : thresholdCdf t v ≤ thresholdCdf t w := by
+  unfold thresholdCdf
+  exact max_le_max (min_le_min h (le_refl _)) (le_refl _)
+
+theorem thresholdCdf_id (t v : Rat) (h0 : t ≤ v) (h1 : v ≤ 1 - t) : thresholdCdf t v = v := by
+  unfold thresholdCdf
+  rw [min_eq_left h1, max_eq_left h0]
 
 end Props.C16
